@@ -67,6 +67,12 @@ func checkAccessorShape(p *Prog, r *Report, key, what string, so StoreOp, nOpsIn
 				r.Fail(key, rule, p.Pos(ret.Pos()), fmt.Sprintf("%s returns %v, not the value unmarshalled from the store (or the zero value for a missing key)", FuncName(fn), t))
 				return
 			}
+			// the store read itself is unconditional: a value handed back without reading the store (a cache hit, a default)
+			// is not the committed entry of the context the caller passed
+			if !o.dominates(in, ret) {
+				r.Fail(key, rule, p.Pos(ret.Pos()), fmt.Sprintf("%s can return without reading the store (the Get is conditional): what it returns on that path is not the entry of the store branch it was called with", FuncName(fn)))
+				return
+			}
 		}
 	case "Has":
 		for _, ret := range returnsOf(fn) {
